@@ -102,7 +102,7 @@ def body(c):
     c.add_tlc("M Gen_ValDoc", m)
     c.add_tlc("G1 Gen_ValDoc (%d configurations)" % len(confs), g)
     # ---- G1 cases ----
-    cap = 150 if c.quick else 12000
+    cap = 150 if c.quick else 4000
     cases, exhaustive, g1_total = [], True, 0
     for label in sorted(g1):
         docs = g1[label]
